@@ -74,6 +74,7 @@ func main() {
 			"non-trivial = reached the oracle comparison (all do). Decoders: every enumerated malformed input must be refused (only a zero-length ASN.1Cert is tolerated, allow-listed). " +
 			"Verifier: additionally 5 non-DER encodings of each genuine ECDSA signature (extra element / stray byte inside the SEQUENCE, long-form lengths, padded r) must be refused, " +
 			"a reduced deviation menu under RSA-3072 and RSA-4096 log keys, every log key loaded through PEM -> PublicKeyFromPEM -> NewSignatureVerifier. " +
+			"Reader behaviour (reader.go): every io.Reader decoder of both packages (DeserializeSCT, UnmarshalDigitallySigned, ct.ReadMerkleTreeLeaf, ct.ReadTimestampedEntryInto on the leaf's inner entry) is run on every well-formed AND malformed input of part A through a reader wrapper with each behaviour of the menu {one byte per Read, half of the request per Read, io.EOF together with the last bytes, one byte per Read + that EOF, a split at offset k, a split at k with one (0,nil) answer at k; k = every offset for inputs <= 64 bytes, else every offset at which the all-at-once run issued a Read and the final position, each +-1} and must give the all-at-once result (value + bytes consumed, or error class); the four k-less behaviours only for: the 248 substitution values outside the 7-value alphabet in the full-alphabet byte sweeps, (quick) inputs above 4 KiB at enumeration depth 3 of A1/A4; inputs on which the decoder asks in one Read for more than 4 KiB and more than the whole input holds (declared lengths up to 16 MiB): one byte per Read only; A2 values outside the 12x12 boundary ids: baseline reader only. " +
 			"Text forms: MarshalJSON of DigitallySigned, SHA256Hash and SCT for every value of A1/A2 in both packages. " +
 			"History oracle: every function returning []byte (23, both packages) x every ordered pair of its 3-4 value alphabet. " +
 			"Entry points (entry.go): E0 the exported functions of ct/{serialization,types,signatures}.go and x509/ct/{serialization,types}.go are listed with go/parser, every serialisation entry point must be driven (else the run is incomplete); " +
@@ -152,8 +153,11 @@ func partA(c *ev.Ctx) {
 	}
 	d := ev.Pick(c, 3, len(sctFields))
 	bt := newBatch(c, "A1 SCT values")
-	enumDev(base, sctFields, d, func(v Case, note string, _ int) {
+	enumDev(base, sctFields, d, func(v Case, note string, depth int) {
 		v.Note = note
+		if !all && depth >= 3 && len(v.Ext)+len(v.Sig) > 4096 {
+			v.Menu = "core" // reader behaviours (reader.go): quick tier, the full menu on 64 KiB inputs at depth <= 2
+		}
 		for _, p := range []string{"ct", "x509/ct"} {
 			v.Pkg = p
 			bt.add(v)
@@ -216,17 +220,27 @@ func partA(c *ev.Ctx) {
 		n := len(s.b)
 		// index i < n: substitutions at offset i; n <= i < 2n: truncation to i-n bytes; 2n, 2n+1: extension
 		runParallel(c, "A3 mutations of "+s.name, 2*n+2, func(r *R, i int) {
+			menu := ""
 			mk := func(b []byte, note string) {
-				cs := Case{Kind: s.kind, Pkg: s.pkg, Bytes: b, Note: s.name + ": " + note}
+				cs := Case{Kind: s.kind, Pkg: s.pkg, Bytes: b, Note: s.name + ": " + note, Menu: menu}
 				r.run(&cs)
 			}
 			switch {
 			case i < n:
+				small := map[byte]bool{}
+				for _, v := range substitutions(s.b[i], false) {
+					small[v] = true
+				}
 				for _, v := range substitutions(s.b[i], all || s.fullAlphabet) {
 					m := append([]byte(nil), s.b...)
 					m[i] = v
+					menu = "core" // reader behaviours (reader.go): full menu for the 7-value alphabet, the k-less ones for the rest
+					if small[v] {
+						menu = ""
+					}
 					mk(m, fmt.Sprintf("offset %d := %02x", i, v))
 				}
+				menu = ""
 			case i < 2*n:
 				mk(append([]byte(nil), s.b[:i-n]...), fmt.Sprintf("truncated to %d bytes", i-n))
 			case i == 2*n:
@@ -267,7 +281,11 @@ func partA(c *ev.Ctx) {
 		if len(s.V.Cert) >= 1<<20 && depth > 2 {
 			return // 16 MiB entries only alone and in pairs
 		}
-		bt.add(Case{Kind: "leaf-bytes", Bytes: encLeaf(s), Note: note})
+		lc := Case{Kind: "leaf-bytes", Bytes: encLeaf(s), Note: note}
+		if !all && depth >= 3 && len(lc.Bytes) > 4096 {
+			lc.Menu = "core"
+		}
+		bt.add(lc)
 	})
 	c.Set("A4_leaf_bytes", fmt.Sprintf("10 fields of the harness encoder, d<=%d (thorough: 2^24-1-byte entries at d<=2): %d cases", ld, bt.done()))
 
